@@ -51,52 +51,48 @@ def y1(prog):
 
 
 def n1(prog):
-    """format directives are implemented as their documented %( ... %) expansions"""
+    """format directives are implemented as their documented %( ... %) expansions: the scanner action of each <STRING>"%X" rule,
+    interpreted from source, flushes the pending text and pushes exactly parse_subquery (BODY) with the BODY that doc/syntax.rst gives
+    for it (so `%x` and `%( value hex %)` build the same tree whatever helper the action goes through)"""
+    import scanner
+    from cxxobj import StdStr, OutOfBounds
     inst, findings = [], []
     doc = open(os.path.join(REPO, "doc/syntax.rst")).read()
     rows = dict(re.findall(r"``(%[a-z])`` stands for ``%\((.*?)%\)``", doc))
     if len(rows) < 5:
         raise Broken("fewer documented format directives than confirmed by hand (5): %s" % sorted(rows))
-    yl = prog.func_opt("yylex")
-    if yl is None:
-        raise Broken("anchor yylex vanished")
-    # lexer.ll: map each <STRING>"%X" rule to its action's source line range
-    lines = open(lexer_path()).read().split("\n")
-    rule_at = {}
-    for i, ln in enumerate(lines, 1):
-        m = re.match(r'<STRING>"(%[a-z])"', ln)
-        if m:
-            rule_at[m.group(1)] = i
-    impl = {}
-    for c in calls(yl["body"]):
-        if c.get("f") == "tree::push_child" and c.get("l", "").startswith("lexer.ll:"):
-            line = int(c["l"].split(":")[1])
-            a = unwrap(c["a"][0])
-            if isinstance(a, dict) and a.get("k") == "call" and a.get("fn") == "parse_subquery":
-                from r_tables import strval
-                lit = strval(a["a"][0])
-                # which rule does this action belong to: the closest rule line above
-                owner = None
-                for d, rl in rule_at.items():
-                    if rl <= line and (owner is None or rl > rule_at[owner]):
-                        owner = d
-                nxt = min([rl for rl in rule_at.values() if rl > rule_at.get(owner, 0)] + [10 ** 9]) if owner else 0
-                if owner and line < nxt and lit is not None:
-                    impl[owner] = (lit, c["l"])
+    conds, rs = scanner.rules()
+    have = {r[1][1:-1]: r for r in rs if r[0] == "STRING" and re.fullmatch(r'"%[a-z]"', r[1])}
+    subs = []
+    ev = scanner.make_evaluator(prog, subs)
     for d, body in sorted(rows.items()):
         key = "N1:" + d
-        got = impl.get(d)
-        inst.append((key, {"documented": body.strip(), "implemented": got[0] if got else None}))
-        if got is None:
-            if d in rule_at:
-                raise Broken("the action of <STRING>\"%s\" is not `push_child (parse_subquery (literal))` (unmodelled shape)" % d)
+        if d not in have:
+            inst.append((key, {"documented": body.strip(), "implemented": None}))
             findings.append({"key": key, "where": "libzwerg/lexer.ll", "msg": "documented directive %s has no scanner rule" % d, "detail": None})
-        elif got[0].split() != body.split():
-            findings.append({"key": key, "where": "libzwerg/" + got[1],
-                             "msg": "`%s` is documented as `%%(%s%%)` but implemented as `%%( %s %%)`" % (d, body, got[0]), "detail": None})
-    for d in rule_at:
+            continue
+        f = scanner.new_fmtlit(prog, ev)
+        f.str = StdStr(b"pending")
+        del subs[:]
+        try:
+            r = scanner.run(prog, ev, have[d], d.encode(), f, conds)
+        except OutOfBounds as x:
+            raise Broken("the action of <STRING>\"%s\" cannot be evaluated: %s" % (d, x))
+        kids = f.t.m_children.items
+        got = subs[0].decode("latin-1") if len(subs) == 1 else None
+        inst.append((key, {"documented": body.strip(), "implemented": got}))
+        where = "libzwerg/lexer.ll:%d" % have[d][2]
+        if r["threw"] or r["token"] is not None or r["state"] is not None:
+            findings.append({"key": key, "where": where, "msg": "the action of `%s` leaves the string (token %s, state %s, exception %s) instead of splicing a sub-query" % (d, r["token"], r["state"], r["threw"]), "detail": None})
+        elif got is None or got.split() != body.split():
+            findings.append({"key": key, "where": where,
+                             "msg": "`%s` is documented as `%%(%s%%)` but implemented as %s" % (d, body, ("`%%( %s %%)`" % got) if got is not None else "%d sub-queries" % len(subs)), "detail": None})
+        elif len(kids) != 2 or getattr(kids[0], "m_str", None) is None or kids[0].m_str.b != b"pending" or getattr(kids[1], "m_str", None) is None or kids[1].m_str.b != subs[0] or f.str.b != b"":
+            findings.append({"key": key, "where": where,
+                             "msg": "`%s` does not flush the text before it and then push its sub-query (children: %d, pending text `%s`)" % (d, len(kids), f.str.b.decode("latin-1")), "detail": None})
+    for d in have:
         if d not in rows:
-            findings.append({"key": "N1:" + d, "where": "libzwerg/lexer.ll:%d" % rule_at[d], "msg": "scanner implements directive %s which doc/syntax.rst does not define" % d, "detail": None})
+            findings.append({"key": "N1:" + d, "where": "libzwerg/lexer.ll:%d" % have[d][2], "msg": "scanner implements directive %s which doc/syntax.rst does not define" % d, "detail": None})
     return inst, findings
 
 
